@@ -1290,6 +1290,24 @@ func qnNonUnitStatements(t *rapid.T, P, Q safePrime, N, g, gx, h, hx *big.Int, p
 		vlib.NonTrivial(sub, "", []byte(cdesc))
 		vlib.Sample(sub, cls, cdesc+" → false")
 	}
+	// non-unit BASES with negative, zero and positive responses: big.Int.Exp returns nil for a negative
+	// exponent of a non-invertible base, and an honest Z can be negative (Z = C·x + r with x < 0); whatever the
+	// statement, Verify must answer, not panic
+	{
+		ng, kb := nonUnit("nub")
+		for _, z := range []*big.Int{bi(-1), new(big.Int).Neg(rz), bi(0), rz} {
+			for _, bases := range [][2]*big.Int{{ng, h}, {g, ng}, {ng, ng}} {
+				vlib.Eval(sub)
+				p := &qndleq.Proof{Z: z, C: rc, SecParam: verifierSecParam}
+				_, pn, st := qnVerify(p, bases[0], gx, bases[1], hx, N)
+				if pn != nil {
+					vlib.Report(t, "C16/qndleq/nonunit/panic/"+vlib.PanicClass(pn), fmt.Sprintf("N=%v g=%v h=%v (non-unit base %s) gx=%v hx=%v PROOF %s: panic %v\n%s", N, bases[0], bases[1], kb, gx, hx, qnProofString(p), pn, st))
+					return false
+				}
+				vlib.Class(sub, "non-unit-base:Z-sign="+fmt.Sprint(z.Sign()))
+			}
+		}
+	}
 	_ = desc
 	return true
 }
